@@ -5,16 +5,4 @@ _PENDING = "check not built yet in this working session (planned in DESIGN.md se
 NOT_APPLICABLE = {f"C{i:02d}": _PENDING for i in range(1, 21)}
 
 CHECKS = {
-    "C10": {
-        "text": "Full: every clause of the property is a Lean theorem about a model of xl_col_to_name / xl_rowcol_to_cell / "
-                "xl_range / xl_cell_to_rowcol / xl_col_to_offset / tokenizer col_to_index, for ALL rows and columns (no bound): "
-                "col_roundtrip, name_roundtrip (bijection N <-> non-empty A..Z words), col_strict_mono (short-lex order), "
-                "cell_roundtrip (all four $ combinations, columns <= ZZZ), cell_name_injective, range_collapses_iff, "
-                "negative_rejected. The model is tied to the code by exhaustive correspondence over all 18278 columns, all "
-                "names, all short strings for the regex scanners, and (thorough) all 1,000,001 rows.",
-        "note": "Python `re` is replaced by a hand scanner (equivalence exercised exhaustively on strings of length <= 4/5 over "
-                "a 9-symbol alphabet + every Unicode digit block); float division int((col-1)/26) is modelled as integer division "
-                "(agreement checked on all columns reachable by 3-letter names and some larger).",
-        "technique": "Lean 4 proof (induction, omega/nlinarith) + exhaustive differential correspondence",
-    },
 }
